@@ -8,6 +8,7 @@ package main
 // (lo, hi) that let constructors skip wraps that cannot happen.
 
 import (
+	"crypto/sha256"
 	"fmt"
 	"math/big"
 	"strings"
@@ -33,6 +34,8 @@ type Term struct {
 	signed bool
 	lo, hi *big.Int // static bounds for SInt/SZ (nil = unknown for SZ)
 	str    string   // cached smt text when small (leaf)
+	h      [16]byte // structural hash (exactly what the printer emits), see hashTerm
+	hok    bool
 }
 
 var termCounter int64
@@ -620,5 +623,55 @@ func evalTerm(t *Term, m map[string]*big.Int, memo map[int]*big.Int) *big.Int {
 		panic("evalTerm: " + t.op)
 	}
 	memo[t.id] = r
+	return r
+}
+
+// ---- structural hashing (query cache) ----
+
+var hTrue, hFalse = hashBytes([]byte("true")), hashBytes([]byte("false"))
+
+func hashBytes(parts ...[]byte) [16]byte {
+	h := sha256.New()
+	for _, p := range parts {
+		var l [4]byte
+		l[0], l[1], l[2], l[3] = byte(len(p)), byte(len(p)>>8), byte(len(p)>>16), byte(len(p)>>24)
+		h.Write(l[:])
+		h.Write(p)
+	}
+	var out [16]byte
+	copy(out[:], h.Sum(nil))
+	return out
+}
+
+// hashTerm is a collision-resistant digest of the SMT text the printer would emit for t
+// (same op, same constants, same variable names <=> same digest, up to SHA-256 collisions).
+func hashTerm(t *Term) [16]byte {
+	switch t.op {
+	case "true":
+		return hTrue
+	case "false":
+		return hFalse
+	}
+	if t.hok {
+		return t.h
+	}
+	var r [16]byte
+	switch t.op {
+	case "const":
+		r = hashBytes([]byte("c"), []byte(t.k.String()))
+	case "var":
+		r = hashBytes([]byte("v"), []byte(t.name))
+	case "id":
+		r = hashTerm(t.args[0])
+	default:
+		parts := make([][]byte, 0, len(t.args)+1)
+		parts = append(parts, []byte(t.op))
+		for _, a := range t.args {
+			ah := hashTerm(a)
+			parts = append(parts, ah[:])
+		}
+		r = hashBytes(parts...)
+	}
+	t.h, t.hok = r, true
 	return r
 }
